@@ -2,7 +2,8 @@
   Decidable oracles about the partition-style StatefulSet-like / DaemonSet control planes, shared by the
   theorems (RV/Props/CtlStsThms.lean) and by the driver, which evaluates them on the snapshots the
   *real* code produced.  Attached to C08 (the webhook holds back), C01 (exposure), C05 (release / the
-  user's configuration survives), C06 (idempotence / fault safety), C07 (the write suffices for readiness).
+  user's configuration survives), C06 (idempotence / fault safety), C07 (the write suffices for readiness),
+  C11 (the readiness verdict means live, ready pods of the update revision; section "the pods behind the verdict").
 -/
 import RV.Model.CtlSts
 import RV.Oracle.Batch
@@ -361,6 +362,101 @@ def stepOracles (c : Cfg) (s : Step) (d : Option Wl) (o : StepOut) : List (Strin
    | .upgradeBatch => [("C01.sts_upgrade_within_step", upgradeWithinStep c.rel s.batch d o),
                        ("C01.sts_upgrade_monotone", upgradeMonotone d o),
                        ("C07.sts_upgrade_suffices", upgradeSuffices c.rel s.batch d o)]
-   | .finalize => [("C05.sts_finalize_releases", finalizeReleases s d o)])
+   | .finalize => [("C05.sts_finalize_releases", finalizeReleases s d o),
+                   -- C11 / C18: the executor reports Completed (and drops its finalizer) exactly when this call returns ok
+                   ("C11.sts_finalize_ok_means_released", finalizeReleases s d o),
+                   ("C18.sts_finalize_ok_means_released", finalizeReleases s d o)])
+
+/-! ### C11 / C07 — the pods behind the readiness verdict -/
+
+/-- the pod is one of the workload's own that is not on its way out: in its namespace, selected by it, owned by it
+    (directly or through an owner it controls), neither completed nor terminating -/
+def livePod (p : Pod) : Bool :=
+  p.inNamespace && p.selMatch && isOwned p.owner && !isCompleted p && !p.terminating
+
+/-- **the specification of "an updated ready pod"**: a live pod of the workload whose revision label is consistent
+    with the update revision and whose `Ready` condition is `True` -/
+def liveReadyUpdated (revision : String) (p : Pod) : Bool :=
+  livePod p && isConsistent p revision && isPodReady p
+
+/-- how many such pods the cluster has -/
+def liveReadyUpdatedCount (revision : String) (pods : List Pod) : Int :=
+  ((pods.filter (liveReadyUpdated revision)).length : Nat)
+
+/-- how many live pods the workload has -/
+def liveCount (pods : List Pod) : Int := ((pods.filter livePod).length : Nat)
+
+/-- the number of updated ready pods the verdict may rely on: counted on the pods wherever the code lists them (every
+    typed kind; an unstructured workload whose status does not report a positive number), else the number the
+    workload's own controller reports in `status.updatedReadyReplicas` -/
+def readyPods (w : Wl) (cl : Cluster) : Int :=
+  if needsList w then liveReadyUpdatedCount cl.status.updateRevision cl.pods else w.updatedReady
+
+/-- **C11 `sts_updated_ready_exact`**: the counters `BuildController` leaves in the workload info are the size, the
+    workload controller's `updatedReplicas` (not `readyReplicas`) and exactly the number of live, ready pods of the
+    update revision -/
+def countersExact (w : Wl) (cl : Cluster) (c : Counters) : Bool :=
+  replicasOf w == some c.replicas && c.updated == cl.status.updated && c.updatedReady == readyPods w cl
+
+/-- **what `Ready` must mean, on the pods** (C11): an empty workload calls for nothing; otherwise the workload reports
+    at least `DesiredUpdatedReplicas` updated pods, the live ready pods of the update revision are within the failure
+    threshold of that number, and there is at least one when any is called for -/
+def readyMeansPods (rel : Rel) (batch : Int) (w : Wl) (cl : Cluster) : Bool :=
+  match replicasOf w with
+  | none => false
+  | some r =>
+    if r = 0 then true else
+    match entryOf rel batch with
+    | none => false
+    | some e =>
+      let desired := desiredOf (bkind w) r e rel.noNeedUpdate
+      decide (cl.status.updated ≥ desired) &&
+      decide (allowedUnavailable rel.failureThreshold cl.status.updated + readyPods w cl ≥ desired) &&
+      decide (desired > 0 → readyPods w cl > 0)
+
+def isReady (o : VerdictOut) : Bool := o.verdict == .is .ok
+
+/-- **C11 `sts_updated_ready_exact`** on a whole answer: the counters the check worked with (when it got that far) -/
+def countersSound (d : Option Wl) (cl : Cluster) (o : VerdictOut) : Bool :=
+  match d, o.counters with
+  | some w, some c => countersExact w cl c
+  | some _, none => o.verdict == .err
+  | none, some _ => false
+  | none, none => o.verdict == .err
+
+/-- **C11 `sts_ready_means_live_ready_pods`**: the verdict is `Ready` only if the pods say so; the check issues no write -/
+def verdictSound (rel : Rel) (batch : Int) (d : Option Wl) (cl : Cluster) (o : VerdictOut) : Bool :=
+  o.writes == 0 &&
+  (if isReady o then
+     (match d with
+      | some w => readyMeansPods rel batch w cl
+      | none => false)
+   else true)
+
+/-- the read phase of the check is not hit by the injected fault -/
+def readsOK (f : Fault) (w : Wl) : Bool := f != .get && !(f == .list && needsList w)
+
+/-- **C07 `sts_ready_when_pods_ready`** (completeness): when the pods satisfy the batch and the reads succeed, the
+    verdict is `Ready` — no spurious "not ready" keeps a finished batch waiting -/
+def verdictComplete (rel : Rel) (batch : Int) (d : Option Wl) (cl : Cluster) (f : Fault) (o : VerdictOut) : Bool :=
+  match d with
+  | some w => if readsOK f w && readyMeansPods rel batch w cl then isReady o else true
+  | none => true
+
+/-- the cluster after pod number `i` degraded -/
+def degraded (cl : Cluster) (h : Degrade) (i : Nat) : Cluster := { cl with pods := degradeAt h i cl.pods }
+
+/-- **C11 `sts_falls_back`**: between two checks pod number `i` degrades (turns not ready, starts terminating, is
+    relabelled to no revision, is deleted, fails, loses its owner).  If it was one of the updated ready pods the
+    counter drops by exactly one, otherwise it stays; and the second verdict is `Ready` only if the pods that are
+    left still say so — a batch whose ready pods fall below the threshold falls back. -/
+def fallsBack (rel : Rel) (batch : Int) (w : Wl) (cl : Cluster) (h : Degrade) (i : Nat) (o1 o2 : VerdictOut) : Bool :=
+  (match cl.pods[i]?, o1.counters, o2.counters with
+   | some p, some c1, some c2 =>
+     if needsList w then
+       c2.updatedReady == c1.updatedReady - (if liveReadyUpdated cl.status.updateRevision p then 1 else 0)
+     else c2.updatedReady == c1.updatedReady
+   | _, _, _ => true) &&
+  (if isReady o2 then readyMeansPods rel batch w (degraded cl h i) else true)
 
 end RV.Oracle.CtlSts
